@@ -66,7 +66,7 @@ def gen_case(rng):
     conflict = None
     if rng.random() < 0.3:
         conflict = {"dep": rng.choice(deps), "kind": rng.choice(["file", "dir", "foreign-symlink"]), "before": rng.randrange(len(hist))}
-    return {"tasks": gen.dump(tasks), "scripts": scripts, "history": hist, "conflict": conflict, "comb": comb["id"], "sib": sib["id"], "condout_symlink": rng.random() < 0.2, "odd_root": rng.random() < 0.25}
+    return {"tasks": gen.dump(tasks), "scripts": scripts, "history": hist, "conflict": conflict, "comb": comb["id"], "sib": sib["id"], "pkgdir_symlink": rng.random() < 0.25, "pkg_index": rng.randrange(16), "condout_symlink": rng.random() < 0.2, "odd_root": rng.random() < 0.25}
 
 
 def nonempty_dir(p):
@@ -87,7 +87,7 @@ def eval_case(case):
 
     with common.Scratch("cv18") as sc:
         tasks = [gen.Task(t) for t in case["tasks"]]
-        pr = realrun.Project(sc.root, tasks, case["scripts"], hostile={"odd_root": case.get("odd_root"), "condout_symlink": case.get("condout_symlink")})
+        pr = realrun.Project(sc.root, tasks, case["scripts"], hostile={"odd_root": case.get("odd_root"), "condout_symlink": case.get("condout_symlink"), "pkgdir_symlink": case.get("pkgdir_symlink"), "pkg_index": case.get("pkg_index", 0)})
         tb = pr.tb
         comb = tb[case["comb"]]
         cout = pr.out_dir(comb["id"])
